@@ -1698,6 +1698,10 @@ func (c *Ctx) ruleExactlyOne(rule string) {
 						deferred = f
 					}
 				}
+				// ... or a named function or method of the package, deferred directly (it calls recover itself)
+				if f := core.StaticBody(&d.Call); f != nil && callsRecover(f) {
+					deferred = f
+				}
 			}
 		}
 	}
